@@ -163,7 +163,8 @@ def run_case(case):
                         with torch.no_grad():
                             yp, _ = model(xp, ctx)
                         if yp.shape == yy.shape:
-                            flat = flat | ((yp == yy) & (xp != x)).reshape(B, -1).any(1)
+                            tiny = 16 * torch.finfo(yy.dtype).eps * (1 + yy.abs())
+                            flat = flat | (((yp - yy).abs() <= tiny) & (xp != x)).reshape(B, -1).any(1)
                     sat = sat | flat
                 except Exception:
                     pass
